@@ -16,7 +16,7 @@ func init() {
 		Technique:   "guarded-sink reachability on the SSA CFG of every Backstore.Put implementation (sibling cross-check) and of Database.Add; loop-latch gating of the primary-key loop",
 		Explanation: "Structural necessary conditions for 'stored assertions only move forward in revision': (R1) every implementation of Backstore.Put / memBSNode.put reaches its storage write (map store, atomicWriteEntry) only when there is no current assertion or curRev < rev, with curRev/rev taken from the current and the new assertion, and every implementation is one of the reviewed ones; (R2) the stacked-database case of Database.Add applies the same comparison before Put; (R3) Database.Add reaches Put only when the lookups in the trusted and the predefined stores both reported NotFound and no primary-key value is empty; (R4) the 'current assertion' selectors of both stores replace their candidate only by a strictly higher revision within the format limit; (R5) the backstores' index maintenance never appends onto a truncated view of a stored slice while a tail of that slice is kept (an in-place insert that silently overwrites an existing member).",
 		NotDecided:  "agreement of the two stores over arbitrary histories; sequence-number searches; the on-disk path encoding.",
-		Run:         func(c *Ctx) { runC19(c); runC19x(c) },
+		Run:         func(c *Ctx) { runC19(c); runC19x(c); runC19z(c) },
 	})
 }
 
